@@ -3,6 +3,7 @@ package mc
 import (
 	"fmt"
 	"sort"
+	"strings"
 
 	"go.etcd.io/raft/v3"
 	pb "go.etcd.io/raft/v3/raftpb"
@@ -213,7 +214,7 @@ func ConvergenceCheck(src *World) []*Violation {
 	rounds := ConvergenceHorizon * maxET
 	for r := 0; r < rounds; r++ {
 		if !w.quiesce() {
-			return nil // a panic in the suffix is C14's business
+			return suffixPanic(src, w)
 		}
 		status = convergedNow(w, members, fresh)
 		if ConvergeTrace != nil {
@@ -232,7 +233,7 @@ func ConvergenceCheck(src *World) []*Violation {
 				fresh = rec.PropPayloads[0]
 			}
 			if !w.quiesce() {
-				return nil
+				return suffixPanic(src, w)
 			}
 		}
 		// membership may have moved on (e.g. an auto-leave or a pending removal got committed)
@@ -261,7 +262,7 @@ func ConvergenceCheck(src *World) []*Violation {
 			if !n.Stopped {
 				w.Apply(Event{Kind: EvTick, Node: uint8(n.ID)})
 				if w.Dead {
-					return nil
+					return suffixPanic(src, w)
 				}
 			}
 		}
@@ -272,6 +273,17 @@ func ConvergenceCheck(src *World) []*Violation {
 		return nil
 	}
 	return []*Violation{{"C15", "converges-within-horizon", fmt.Sprintf("after %d election timeouts without faults: %s; final %s", ConvergenceHorizon, status.missing, w.outcome())}}
+}
+
+// suffixPanic: a node that panics during the fault-free suffix does not converge.
+// The panic of known finding KF-2 is not reported again here.
+func suffixPanic(src, w *World) []*Violation {
+	msg := fmt.Sprint(w.LastPanic)
+	if strings.Contains(msg, "term should be set when sending MsgPreVoteResp") {
+		src.Counters["c15_suffix_skipped_known_panic"]++
+		return nil
+	}
+	return []*Violation{{"C15", "converges-within-horizon", fmt.Sprintf("a node panicked during the fault-free suffix: %s; state %s", msg, w.outcome())}}
 }
 
 // syncStopped stops nodes that were removed from the committed configuration (they
